@@ -934,6 +934,22 @@ def b_frozenset(I, args, kw):
     return b_set(I, args, kw)
 
 
+def b_open(I, args, kw):
+    """open(path): a context manager yielding a stream (events open / close)"""
+    ctx = I.ctx
+    path = args[0]
+
+    def enter():
+        ctx.emit("open", ctx.to_val(path))
+        return SV(fresh_val("stream"), ANY)
+
+    def exit_(exc):
+        ctx.emit("close", ctx.to_val(path))
+        return False
+
+    return CtxMgr(enter, exit_)
+
+
 def b_callable(I, args, kw):
     v = I.ctx.from_val(args[0]) if isinstance(args[0], SV) else args[0]
     if isinstance(v, (Closure, BoundMethod, ClassInfo, PartialFn, Builtin, AbstractMethod)):
@@ -973,6 +989,7 @@ _BUILTINS = {
     "repr": b_repr,
     "super": b_super,
     "callable": b_callable,
+    "open": b_open,
 }
 
 
